@@ -2,6 +2,7 @@
    never bleed into neighbours.  Only statements; every proof is `exact <lemma>`.
    Vocabulary: BitFields/Spec.v (RFC layouts, `field`, `agree_outside`),
    BitFields/Model.v (the Rust functions), BitFields/Fields.v (ok / get / set). *)
+From EP Require Parse.GenAccessOk.   (* the field accessors, re-translated from the Rust source on every run (Gen/Accessors.v), equal the hand models the theorems below are about *)
 From EP Require Parse.ConstsAllOk.   (* every numeric `pub const` of the crate, regenerated from the source on every run, has its RFC / IANA value *)
 From EP Require Import Base.Bytes BitFields.Spec BitFields.Model BitFields.Fields
   BitFields.BitLemmas BitFields.Proofs BitFields.Proofs2 BitFields.Proofs3.
